@@ -140,6 +140,10 @@ pub fn plan(tier: Tier, seed: u64) -> Value {
     serde_json::to_value(C22Plan { partitions, buckets, streams, strict, ops, seed: rng.next_u64() >> 8 }).unwrap()
 }
 
+thread_local! {
+    static PARTIAL_FRAMES: std::cell::Cell<u64> = const { std::cell::Cell::new(0) };
+}
+
 // ---------------------------------------------------------------------------------------------
 // RESP3
 
@@ -410,6 +414,9 @@ fn run(plan: C22Plan) -> RunOutcome {
         let mut points: Vec<usize> = cuts.into_iter().filter(|c| *c > 0 && *c < bytes.len()).collect();
         points.sort();
         points.dedup();
+        if !points.is_empty() {
+            PARTIAL_FRAMES.with(|c| c.set(c.get() + 1));
+        }
         let mut at = 0;
         for p in points.into_iter().chain(std::iter::once(bytes.len())) {
             if !client.write(&bytes[at..p]) {
@@ -1037,6 +1044,15 @@ fn run(plan: C22Plan) -> RunOutcome {
         let mut c = Chain::new();
         c.push_u64(sched.0);
         out.nontrivial = Some(c.0);
+    }
+    for (name, key) in [("read_pipelined_behind_append", "read_pipelined_behind_append"), ("confirmation_actor_delayed", "confirmation_update_delayed"), ("invalid_request", "invalid_request_rejected")] {
+        if let Some(n) = probes.get(key) {
+            out.faults.insert(name.to_string(), *n);
+        }
+    }
+    let pf = PARTIAL_FRAMES.with(|c| c.replace(0));
+    if pf > 0 {
+        out.faults.insert("request_delivered_in_partial_frames".into(), pf);
     }
     out.probes = probes;
     out.schedule_hash = sched.0;
